@@ -179,7 +179,8 @@ class _Lagrangian:
         A_eq = np.concatenate((np.ones((1, n_hs)), np.zeros((1, 1))), axis=1)
         b_eq = np.ones(1)
         result = opt.linprog(c, A_ub=A_ub, b_ub=b_ub, A_eq=A_eq, b_eq=b_eq, method="highs-ds")
-        Q = pd.Series(result.x[:-1], self.hs.index)
+        # the simplex solver may return weights like -6e-12; Q is a probability vector
+        Q = pd.Series(result.x[:-1], self.hs.index).clip(lower=0.0)
         dual_c = np.concatenate((b_ub, -b_eq))
         dual_A_ub = np.concatenate((-A_ub.transpose(), A_eq.transpose()), axis=1)
         dual_b_ub = c
